@@ -44,6 +44,46 @@ func NewRef(s *Spec) *RefLexer {
 	return r
 }
 
+// Step applies the definition once: from pos in mode, consume the longest run
+// that is still a prefix of some match, then pick the earliest rule matching
+// exactly that run. win == -1 means error (or end of input when end == pos).
+// skip lists rule indices to ignore (used by C08 to leave non-greedy rules to
+// their own oracle).
+func (r *RefLexer) Step(mode int, in []byte, pos int, skip map[int]bool) (win, end int) {
+	ds := append([]*re(nil), r.rules[mode]...)
+	for i := range ds {
+		if skip[i] {
+			ds[i] = r.G.none
+		}
+	}
+	p := pos
+	for {
+		c, n := DecodeRune(in, p)
+		if c == -1 {
+			break
+		}
+		alive := false
+		nds := make([]*re, len(ds))
+		for i, d := range ds {
+			nds[i] = r.G.deriv(d, c)
+			alive = alive || nds[i].op != '0'
+		}
+		if !alive {
+			break
+		}
+		ds = nds
+		p += n
+	}
+	if p > pos {
+		for i, d := range ds {
+			if nullable(d) {
+				return i, p
+			}
+		}
+	}
+	return -1, p
+}
+
 // Lex returns the token stream up to and including the first ERROR or EOF.
 func (r *RefLexer) Lex(in []byte) ([]Tok, Info) {
 	var out []Tok
